@@ -127,7 +127,12 @@ class Scipy:
         self.calls.append(("filter", N, Wn, btype, fs))
         out = np.empty(x.shape, dtype=object)
         for ch, c in enumerate(cols):
-            nc = FILT(c, lift(fs).z, lift(Wn).z, z3.IntVal(int(N)), z3.IntVal(tag(("btype", btype))))
+            # edge handling is part of the routine's contract: scipy's defaults (padtype='odd', padlen=None) are the specification;
+            # any other value gives a different filter (tagged into the band-type argument of the uninterpreted function)
+            pad = (kw.get("padtype", "odd"), kw.get("padlen", None))
+            extra = sorted(k for k in kw if k not in ("padtype", "padlen"))
+            bt = ("btype", btype) if pad == ("odd", None) and not extra else ("btype", btype, "pad", str(pad[0]), str(pad[1]), tuple(extra))
+            nc = FILT(c, lift(fs).z, lift(Wn).z, z3.IntVal(int(N)), z3.IntVal(tag(bt)))
             for t in range(x.shape[0]):
                 out[t, ch] = Cell(nc, t)
         return out
@@ -386,7 +391,9 @@ def replay_hist(cfg, inputs):
             elif op == "filt":
                 Wn = 0.2 * fs if p.get("btype") != "bandpass" else (0.1 * fs, 0.2 * fs)
                 su.filter_data(Wn=Wn, **p)
-                model = [gen.filter_data(x, fs, Wn, order=p.get("order", 8), btype=p.get("btype", "lowpass")) for x in model]
+                # reference from scipy's own primitives with their documented defaults (not pyOMA2's wrapper)
+                sos = signal.butter(p.get("order", 8), Wn, btype=p.get("btype", "lowpass"), output="sos", fs=fs)
+                model = [signal.sosfiltfilt(sos, x, axis=0) for x in model]
             elif op == "roll":
                 su.rollback()
                 model = [u.copy() for u in backup]
